@@ -99,6 +99,17 @@ CHECKS = {
         "beyond-range and tolerance-band probes; trailing-D, heterogeneous) are compared with values computed from the history alone.",
         "selectors between half-steps not covered; delta-plus injected currents follow a fixed cycle; float tolerance 1e-5",
     ),
+    "C05": (
+        "exploration", "DESIGN.md §3 C05",
+        "exhaustive finite sweeps: all boolean inputs x shape/batch/bias grid for dense/direct/lateral vs nested loops; full Conv2D "
+        "geometry product vs a naive loop cross-correlation and F.conv2d; all lateral assignment/update sequences to a depth bound",
+        "Outputs are compared bitwise (integer weights and currents) with the documented linear map computed by plain Python loops for "
+        "every boolean input of in-size <=4 and every (in,out) shape pair from {(1),(2),(3),(2,2)}; Conv2D over the complete "
+        "H,W,C,F,kernel,stride,padding,dilation product with non-empty output incl. the advertised output shape; lateral diagonal "
+        "invariant and self-independence after every assignment/updater sequence; helper round trips and receptive-view "
+        "reconstruction of forward.",
+        "geometry grid bounded (H,W<=4 quick, <=5 thorough); torch F.unfold/F.fold trusted as primitives",
+    ),
 }
 
 PENDING_REASON = "check not built yet in this session (claimed in DESIGN.md; will move to checks when its exploration exists)"
